@@ -92,6 +92,8 @@ def plan(tier):
     shards.append(("off", "sec", tier))
     for t0 in range(8):
         shards.append(("ld", "lpae", tier, t0))
+    for t0 in (0, 2):
+        shards.append(("ld", "virt", tier, t0))     # Non-secure walks pass through second_stage_translate()
     return {
         "shards": shards,
         "rule": "Short-descriptor tables generated in RAM: TTBCR.N 0..7 x VA place (last 16 MB below / first 16 MB above "
